@@ -298,6 +298,55 @@ fn empty_match_part(args: &Args, run: &mut Run) -> i32 {
     );
     let cases = if args.cases > 0 { args.cases } else if args.thorough() { 40000 } else { 3000 };
     run.frozen = false;
+    // every attribute form of a pattern that plainly matches the empty string: empty #[token] / #[regex] / skip literals
+    // (str and byte-string), with and without ignore(case), an explicit priority, in both modes, alone and next to a token
+    {
+        let lits: Vec<(bool, LitSpec)> = vec![
+            (true, LitSpec::str("")),
+            (true, LitSpec::bytes(Vec::<u8>::new())),
+            (false, LitSpec::str("")),
+            (false, LitSpec::bytes(Vec::<u8>::new())),
+            (false, LitSpec::str("(?i)")),
+            (false, LitSpec::str("a*")),
+            (false, LitSpec::str("(?x) # nothing")),
+            (false, LitSpec::bytes(b"(?-u:\\xff)*".to_vec())),
+        ];
+        for (is_token, lit) in &lits {
+            for ic in [false, true] {
+                for prio in [None, Some(3usize)] {
+                    for utf8 in [true, false] {
+                        for shape in 0..3 {
+                            if lit.bytes && utf8 && !lit.raw.is_ascii() {
+                                continue;
+                            }
+                            if *is_token && shape == 2 {
+                                continue;
+                            }
+                            let mut p = if *is_token { PatSpec::token(lit.clone()) } else { PatSpec::regex(lit.clone()) };
+                            p.ignore_case = ic;
+                            p.priority = prio;
+                            let other = PatSpec::token(LitSpec::str("\u{3}\u{3}"));
+                            let def = match shape {
+                                0 => DefSpec { utf8, subpatterns: vec![], skips: vec![], variants: vec![vec![p]] },
+                                1 => DefSpec { utf8, subpatterns: vec![], skips: vec![], variants: vec![vec![other], vec![p]] },
+                                _ => DefSpec { utf8, subpatterns: vec![], skips: vec![p], variants: vec![vec![other]] },
+                            };
+                            let d = derive_def(&def);
+                            run.eval(1);
+                            run.count("empty_literal_forms", 1);
+                            if d.panic.is_none() && d.errors.is_empty() {
+                                run.violations = 1;
+                                let msg = format!("a definition with the empty-matching pattern {} ({}ignore(case), priority {:?}, utf8 = {utf8}) is accepted", lit.rust(), if ic { "" } else { "no " }, prio);
+                                report_violation("C03", &args.replay_dir, &json!({"property": "C03", "tier": "G", "empty_match": true, "def": def, "rendered_rust": model::prep::render(&def), "input_hex": "", "findings": [{"property": "C03", "what": msg}]}));
+                                return 1;
+                            }
+                            run.nontrivial(fnv(d.rust.as_bytes()));
+                        }
+                    }
+                }
+            }
+        }
+    }
     let contexts: [&[u8]; 6] = [b"", b"a", b" ", b"\n", b"0", "é".as_bytes()];
     let check = |case: &((model::gen::Ast, bool), u8), run: &mut Run| -> Result<(), String> {
         let ((ast, utf8), shape) = case;
